@@ -24,11 +24,12 @@ from vlib import Case, Stream, BUILD, model_cmd
 ID = "C20"
 LEAN_MODULES = ["HgVerif.Props.C20"]
 THEOREMS = [
-    "HgVerif.Delta.apply_capture", "HgVerif.Delta.capture_apply", "HgVerif.Delta.apply_capture_marks",
-    "HgVerif.Delta.tick_observable", "HgVerif.Delta.tick_hasEffect", "HgVerif.Delta.apply_noEffect",
-    "HgVerif.Delta.record_index", "HgVerif.Delta.replay_cycles", "HgVerif.Delta.replay_record_id",
-    "HgVerif.Delta.replay_values", "HgVerif.Delta.emptyTick_not_replayed", "HgVerif.Delta.bundleDefault_validates",
-    "HgVerif.Delta.apply_capture_unrestricted_false",
+    "HgVerif.Delta.apply_capture", "HgVerif.Delta.capture_apply",
+    "HgVerif.Delta.tick_hasEffect", "HgVerif.Delta.tick_observable", "HgVerif.Delta.apply_noEffect",
+    "HgVerif.Delta.record_index", "HgVerif.Delta.replay_cycles", "HgVerif.Delta.replay_states",
+    "HgVerif.Delta.replay_record_id", "HgVerif.Delta.replay_values", "HgVerif.Delta.gap_admitted",
+    "HgVerif.Delta.emptyTick_not_replayed", "HgVerif.Delta.bundleDefault_validates",
+    "HgVerif.Delta.ghostKey_not_recorded", "HgVerif.Delta.apply_capture_unrestricted_false",
 ]
 CXX_TARGETS = ["hgv_replay"]
 RULE = ("generated schemas to depth 3 (4 in thorough) over TS/SIGNAL/TSW/TSS/TSD/TSL/TSB with Int and Str scalars, "
@@ -546,9 +547,15 @@ def streams(rng, tier, seed):
     wf = [gen_case(rng, i, 'wf', maxd, maxt) for i in range(n_wf)]
     out = [Stream("replayable", exe, model_cmd("C20"), corpus + wf)]
     if os.environ.get("C20_FINDINGS", "on") != "off":
-        odd = [Case(["case %d" % i] + body + ["run", "rerun", "final", "direct"]) for i, body in enumerate(DIRECTED)]
-        odd += [gen_case(rng, 100 + i, 'odd', maxd, maxt) for i in range(n_odd)]
-        out.append(Stream("any-delta", exe, model_cmd("C20"), odd))
+        # histories with arbitrary (also ineffective / non-canonical) deltas: graph level first, then the same
+        # histories on bare outputs
+        bodies = [list(b) for b in DIRECTED]
+        bodies += [gen_case(rng, 0, 'odd', maxd, maxt).lines[1:-4] for _ in range(n_odd)]
+        tail_graph, tail_direct = ["run", "rerun", "final"], ["direct"]
+        out.append(Stream("any-delta", exe, model_cmd("C20"),
+                          [Case(["case %d" % i] + b + tail_graph) for i, b in enumerate(bodies)]))
+        out.append(Stream("any-delta-bare-output", exe, model_cmd("C20"),
+                          [Case(["case %d" % i] + b + tail_direct) for i, b in enumerate(bodies)]))
     return out
 
 
@@ -598,18 +605,109 @@ def _parse_case(case, out):
     return info
 
 
-def _b_like(v1, v2):
-    """v2 equals v1 except that some never-valid positions `_` of v1 read `{}` in v2"""
-    i = j = 0
-    hit = False
-    while i < len(v1) and j < len(v2):
-        if v1[i] == v2[j]:
-            i += 1; j += 1
-        elif v1[i] == "_" and v2.startswith("{}", j):
-            i += 1; j += 2; hit = True
-        else:
-            return False
-    return hit and i == len(v1) and j == len(v2)
+def parse_state(s, c):
+    """state text (print_state of the drivers) -> spec state tree"""
+    k = s[0]
+    if k in ('TS', 'SIGNAL'):
+        t = c.tok()
+        if t == "_":
+            return None
+        return True if k == 'SIGNAL' else unsc(s[1], t)
+    if k == 'TSW':
+        if c.eat("_"):
+            return None
+        c.need("<")
+        out = []
+        while not c.eat(">"):
+            out.append(int(c.tok()))
+            c.eat(";")
+        return out
+    if k == 'TSS':
+        if c.eat("_"):
+            return None
+        out = set()
+        c.need("{")
+        if not c.eat("}"):
+            while True:
+                out.add(unsc(s[1], c.tok()))
+                if not c.eat(","):
+                    break
+            c.need("}")
+        return out
+    if k == 'TSD':
+        if c.eat("_"):
+            return None
+        out = {}
+        c.need("{")
+        if not c.eat("}"):
+            while True:
+                key = unsc(s[1], c.tok()); c.need("=")
+                out[key] = parse_state(s[2], c)
+                if not c.eat(","):
+                    break
+            c.need("}")
+        return out
+    if k == 'TSL':
+        c.need("[")
+        out = []
+        for i in range(s[2]):
+            if i:
+                c.need(",")
+            out.append(parse_state(s[1], c))
+        c.need("]")
+        return out
+    if k == 'TSB':
+        c.need("(")
+        out = []
+        for i, ch in enumerate(s[1]):
+            if i:
+                c.need(",")
+            c.tok(); c.need("=")
+            out.append(parse_state(ch, c))
+        c.need(")")
+        return out
+    raise ValueError(k)
+
+
+def _norm(s, st, b, cc):
+    """b: read a never-valid TSS/TSD as the empty one; cc: drop dictionary keys whose child is not valid"""
+    k = s[0]
+    if k == 'TSS':
+        return set() if (st is None and b) else st
+    if k == 'TSD':
+        if st is None:
+            return {} if b else None
+        return {key: _norm(s[2], v, b, cc) for key, v in st.items() if not (cc and not is_valid(s[2], v))}
+    if k == 'TSL':
+        return [_norm(s[1], c, b, cc) for c in st]
+    if k == 'TSB':
+        return [_norm(c, st[i], b, cc) for i, c in enumerate(s[1])]
+    return st
+
+
+def _state_class(s, t1, t2):
+    """why two state texts differ: 'B', 'C', 'B+C' (explained by the known asymmetries) or None"""
+    try:
+        a, b = parse_state(s, Cur(t1)), parse_state(s, Cur(t2))
+    except Exception:
+        return None
+    for tag, fb, fc in (("B", True, False), ("C", False, True), ("B+C", True, True)):
+        if _norm(s, a, fb, fc) == _norm(s, b, fb, fc):
+            return tag
+    return None
+
+
+MSG_A = "[C20-A] an empty tick of an already valid TSS/TSD is recorded but not re-created by replay: "
+MSG_B = "[C20-B] a captured TSB delta carries the empty delta of a non-ticking TSS/TSD field; applying it validates the never-valid field: "
+MSG_C = "[C20-C] a dictionary key whose child never became valid is not recorded: "
+MSG_0 = "[C20] "
+
+
+def _msg_for_state(tag, s, t1, t2):
+    if tag is not None:
+        return tag
+    cls = _state_class(s, t1, t2)
+    return {None: MSG_0, "B": MSG_B, "C": MSG_C, "B+C": MSG_B}[cls]
 
 
 def _analyse(case, out):
@@ -636,26 +734,30 @@ def _analyse(case, out):
         _features_of(s, st, d, feats, seen_removed)
         st = spec_apply(s, st, d)
     feats.add("history-replayable" if ok_hist else "history-any")
-    tag = "[C20]" if ok_hist else None
+    if not ok_hist and getattr(case, "meta", {}).get("kind") == "wf":
+        # a shrink candidate of a generated replayable history that is no longer replayable: outside the
+        # contract of that stream, not evidence (keeps minimised replays inside the property's scope)
+        return bad, feats, info, ok_hist
+    tag = MSG_0 if ok_hist else None
     r1, r2 = info["rec1"], info["rec2"]
     if r1 is not None and ok_hist:
         exp = {cyc: show_delta(s, canon(s, d)) for cyc, d in info["ticks"]}
         expn = (info["ticks"][-1][0] + 1) if info["ticks"] else 0
         if r1[0] != exp or r1[1] != expn:
             diff = sorted(set(r1[0].items()) ^ set(exp.items()))[:2]
-            bad.append("[C20] recording 1 is not the input history (canonical form): n=%d expected %d, differing ticks %s"
+            bad.append(MSG_0 + "recording 1 is not the input history (canonical form): n=%d expected %d, differing ticks %s"
                        % (r1[1], expn, diff))
     if r1 is not None and r2 is not None and r1 != r2:
         cycs = sorted(c for c in set(r1[0]) | set(r2[0]) if r1[0].get(c) != r2[0].get(c))
         c0 = cycs[0] if cycs else -1
-        t = tag or ("[C20-A]" if "{}" in r1[0].get(c0, "") else "[C20]")
-        bad.append("%s replaying recording 1 does not reproduce it: cycle %s recorded %s, replayed+recorded %s (n=%d vs %d)"
+        t = tag or (MSG_A if "{}" in r1[0].get(c0, "") else MSG_0)
+        bad.append("%sreplaying recording 1 does not reproduce it: cycle %s recorded %s, replayed+recorded %s (n=%d vs %d)"
                    % (t, c0, r1[0].get(c0, "no tick"), r2[0].get(c0, "no tick"), r1[1], r2[1]))
     if info["vals"] is not None:
         v1, v2 = info["vals"]
         if v1 != v2:
-            t = tag or ("[C20-B]" if _b_like(v1, v2) else "[C20]")
-            bad.append("%s final values differ: original %s, replay of the recording %s" % (t, v1, v2))
+            t = _msg_for_state(tag, s, v1, v2)
+            bad.append("%sfinal values differ: original %s, replay of the recording %s" % (t, v1, v2))
         if r1 is not None:
             try:
                 f = fresh(s)
@@ -663,8 +765,8 @@ def _analyse(case, out):
                     f = spec_apply(s, f, parse_delta(s, Cur(r1[0][cyc])))
                 fv = show_state(s, f)
                 if fv != v1:
-                    t = tag or ("[C20-B]" if _b_like(v1, fv) else "[C20]")
-                    bad.append("%s folding recording 1 from empty gives %s, the recorded series ended at %s" % (t, fv, v1))
+                    t = _msg_for_state(tag, s, v1, fv)
+                    bad.append("%sfolding recording 1 from empty gives %s, the recorded series ended at %s" % (t, fv, v1))
             except Exception as e:
                 bad.append("[C20] recording 1 is not parseable: %s" % e)
     if info["direct"] is not None:
@@ -680,14 +782,14 @@ def _analyse(case, out):
                     bad.append("[C20] applying tick %s to a bare output did not tick" % cyc)
                 continue
             if d.endswith("!unobservable"):
-                bad.append("%s tick %s captured as %s is classified unobservable" % (tag or "[C20]", cyc, d))
+                bad.append("%stick %s captured as %s is classified unobservable" % (tag or MSG_0, cyc, d))
                 continue
             if d2 != d:
-                tt = tag or ("[C20-A]" if "{}" in d else "[C20]")
-                bad.append("%s capture from the copy differs at tick %s: %s vs %s" % (tt, cyc, d, d2))
+                tt = tag or (MSG_A if "{}" in d else MSG_0)
+                bad.append("%scapture from the copy differs at tick %s: %s vs %s" % (tt, cyc, d, d2))
             if a != b:
-                tt = tag or ("[C20-B]" if _b_like(a, b) else "[C20]")
-                bad.append("%s apply(capture) on a copy differs from the post-tick state at tick %s: %s vs %s" % (tt, cyc, a, b))
+                tt = _msg_for_state(tag, s, a, b)
+                bad.append("%sapply(capture) on a copy differs from the post-tick state at tick %s: %s vs %s" % (tt, cyc, a, b))
     # order: unexplained first
     bad.sort(key=lambda m: (m.startswith("[C20-"), m))
     return bad, feats, info, ok_hist
